@@ -8,7 +8,7 @@ from vmc.oracles import scene as sc
 FORMATS = ["glyf_colr_1", "glyf", "glyf_colr_0", "cff_colr_0", "cff_colr_1", "cff2_colr_0", "cff2_colr_1",
            "picosvg", "picosvgz", "untouchedsvg", "untouchedsvgz", "cbdt", "sbix"]
 KEEP = ("vb_origin", "vb_size", "vb_aspect", "metrics", "width", "user", "tol", "clipq", "keep", "outline", "stack", "place",
-        "donor_paint", "copy_paint", "grp", "seqlen", "nglyphs", "where", "lin_vec", "rad_geom", "twin", "shared_grad", "grad_twice", "vb_b")
+        "donor_paint", "copy_paint", "grp", "seqlen", "nglyphs", "where", "lin_vec", "rad_geom", "twin", "shared_grad", "grad_twice", "vb_b", "clone")
 DIMS = {"fmt": FORMATS}
 DIMS.update({k: scenes.DIMS[k] for k in KEEP})
 DIMS["pretty"] = [False, True]
